@@ -7,6 +7,8 @@ use crate::report::{hnum, FailAgg};
 use crate::util::{fnv64, json_str};
 
 pub struct CaseOut {
+    /// history mode: memory of machine and shadow agree after this step (false: the history cannot go on)
+    pub synced: bool,
     pub ok: bool,
     pub alt: &'static str,
     pub obs: ObsFlow,
@@ -53,7 +55,7 @@ pub fn check_ins(
     let label_idx = |l: &str| lm.iter().find(|(k, _)| k == l).map(|(_, i)| *i);
     let fo = |e: &Flow, o: &ObsFlow| flow_matches(e, o, &label_idx);
     match b.judge(&obs, &post, &outs, &fo) {
-        Ok(alt) => CaseOut { ok: true, alt, obs, post },
+        Ok(alt) => CaseOut { synced: true, ok: true, alt, obs, post },
         Err(m) => {
             let mut reported = false;
             for comp in &m.components {
@@ -96,7 +98,8 @@ pub fn check_ins(
                     )
                 });
             }
-            CaseOut { ok: !reported, alt: if reported { "" } else { "ignored-components-only" }, obs, post }
+            let synced = if b.keep { b.resync(&outs) } else { true };
+            CaseOut { synced, ok: !reported, alt: if reported { "" } else { "ignored-components-only" }, obs, post }
         }
     }
 }
@@ -186,7 +189,7 @@ pub fn history_plane(rep: &crate::report::Report, nhist: usize, maxlen: usize, s
                 });
                 loc.evals += 1;
                 done += 1;
-                if !out.ok {
+                if !out.ok || !out.synced {
                     break;
                 }
                 r = out.post;
@@ -194,6 +197,89 @@ pub fn history_plane(rep: &crate::report::Report, nhist: usize, maxlen: usize, s
             }
             loc.distinct.insert(fnv64(format!("hist|{}|{}", prefix, done.min(64)).as_bytes()));
             *loc.counters.entry("instructions executed in lock-step histories").or_insert(0) += done as u64;
+            b.end_history();
+            b.restore_mem();
+            agg.flush(rep);
+            loc.flush(rep);
+        });
+    });
+}
+
+/// Mixed-history plane shared by the value monitors: like `history_plane`, but the instructions come from ALL thirteen
+/// classes the assembler can emit (arithmetic, logic, unary, shifts, mov, xchg, stack, lea, strings, jumps, call/ret/int,
+/// single-opcode instructions, print), so that state carried from a *foreign* family into the property's own family
+/// (a mark left by a memory-form MUL that a later INC consumes, a cached address, a flag computed lazily) shows at
+/// the step where it matters. Every instruction is executed and the history continues from the observed state;
+/// only divergences at instructions for which `own` is true are reported (each property reports its own family).
+/// Components with recorded known findings are left to the planes that record them (flags of INC/DEC/NEG and of
+/// byte IMUL).
+pub fn mixed_history(rep: &crate::report::Report, nhist: usize, maxlen: usize, seed: u64, what: &str, prefix: &str, own: &(dyn Fn(&Ins) -> bool + Sync)) {
+    use crate::gen::*;
+    crate::util::par_for(nhist, 2, |h| {
+        let mut rng = crate::util::Rng::new(seed).fork(0x3157_0000 + h as u64);
+        thread_local! { static MB: std::cell::RefCell<Option<Bench>> = std::cell::RefCell::new(None); }
+        MB.with(|cell| {
+            let mut slot = cell.borrow_mut();
+            if slot.is_none() {
+                *slot = Some(crate::c01::bench_with_labels(0x58));
+            }
+            let b = slot.as_mut().unwrap();
+            let mut agg = FailAgg::new();
+            let mut loc = crate::report::Local::default();
+            let mut r = hostile_regs(&mut rng);
+            r[FLAG] &= !TF;
+            b.keep = true;
+            let len = 4 + rng.below(maxlen.max(5) - 3);
+            let mut done = 0u64;
+            let mut owned = 0u64;
+            for _ in 0..len {
+                // half of the steps from the property's own family when the generator finds one quickly
+                let cl = rng.below(crate::c09::CLASSES);
+                let mut ins = crate::c09::rand_ins(&mut rng, cl);
+                if rng.chance(1, 2) {
+                    for _ in 0..6 {
+                        if own(&ins) {
+                            break;
+                        }
+                        let cl = rng.below(crate::c09::CLASSES);
+                        ins = crate::c09::rand_ins(&mut rng, cl);
+                    }
+                }
+                if let Ins::Str(rp, ..) = &ins {
+                    if *rp != Rep::None {
+                        r[CX] = rng.below(6) as u16;
+                    }
+                }
+                if matches!(ins, Ins::Ret) && rng.chance(1, 2) {
+                    b.ictx.call_stack.clear();
+                }
+                let mine = own(&ins);
+                let line = ins.ir();
+                let mn = ins.class().split(' ').next().unwrap_or("?").to_string();
+                let byte_imul = matches!(&ins, Ins::Un(Un::Imul, l) if l.width() == W::B);
+                let out = check_ins(b, &ins, &line, &r, &mut agg, false, what, &|c| {
+                    if !mine {
+                        return None;
+                    }
+                    if c.starts_with("flag:") && (matches!(mn.as_str(), "inc" | "dec" | "neg") || byte_imul) {
+                        return None;
+                    }
+                    Some(format!("{}:mixed-history:{}:{}", prefix, mn, if c.starts_with("reg:") { "register" } else { c }))
+                });
+                loc.evals += 1;
+                done += 1;
+                if mine {
+                    owned += 1;
+                }
+                if matches!(out.obs, ObsFlow::Panic(_)) || !out.synced {
+                    break;
+                }
+                r = out.post;
+                r[FLAG] &= !TF;
+            }
+            loc.distinct.insert(fnv64(format!("mixed|{}|{}|{}", prefix, done.min(64), owned.min(32)).as_bytes()));
+            *loc.counters.entry("instructions executed in mixed-family histories").or_insert(0) += done;
+            *loc.counters.entry("of these, instructions of the property's own family (judged)").or_insert(0) += owned;
             b.end_history();
             b.restore_mem();
             agg.flush(rep);
